@@ -150,6 +150,13 @@ func (p *Parser) ExtractPatterns(file *ast.File, info *types.Info, wireAlias str
 					continue
 				}
 
+				// panic(wire.Build(...)) is the other documented way to write an injector body
+				if fn, ok := call.Fun.(*ast.Ident); ok && fn.Name == "panic" && len(call.Args) == 1 {
+					if inner, ok := call.Args[0].(*ast.CallExpr); ok {
+						call = inner
+					}
+				}
+
 				// Check if it's a wire.Build call
 				sel, ok := call.Fun.(*ast.SelectorExpr)
 				if !ok {
